@@ -329,8 +329,9 @@ def fingerprint(node):
                 rec.append((flag, n.__dict__[flag]))
         rec.append(("parent_is_container", parent is None or n.parent is parent))
         rec.append(("edited", isinstance(n, gtree.EditedTreeNode)))
-        # instance attributes a comparison must not add or drop (memo fields excluded)
-        rec.append(tuple(sorted(k for k in getattr(n, "__dict__", {}) if k not in ("_total_size",))))
+        # public instance attributes a comparison must not add or drop (edit / removed / inserted / matched_to ...);
+        # private ones are memo fields (_total_size, an instance-level _parent = None left by make_edited)
+        rec.append(tuple(sorted(k for k in getattr(n, "__dict__", {}) if not k.startswith("_"))))
         out.append(tuple(rec))
         try:
             kids = list(n.children())
